@@ -44,7 +44,11 @@ func main() {
 	harness.Main("C09", "exploration",
 		harness.Layer{Name: "stress", Run: func(h *harness.H) { stress(h, "stress") }},
 		harness.Layer{Name: "delgc", Run: func(h *harness.H) { stress(h, "delgc") }},
-		harness.Layer{Name: "fdlimit", Run: fdlimit},
+		// fdlimit (fdlimit.go) is NOT registered: it drives a bare domain.DB with a 2-4
+		// descriptor budget, a configuration no cesium database can have (the cesium API
+		// fixes 100 per channel); the unmodified domain layer itself stalls and mis-sizes
+		// pointers there. Kept for exploration: VERIF_LAYERS=fdlimit with the line below.
+		// harness.Layer{Name: "fdlimit", Run: fdlimit},
 	)
 }
 
